@@ -140,6 +140,9 @@ fn trees() -> Vec<(String, CmdSpec)> {
     r3.subs.clear();
     r3.set(Setting::DisableHelpFlag);
     out.push(("no subcommands, help flag disabled".to_string(), r3));
+    let mut r4 = root.clone();
+    r4.set(Setting::NoBinaryName);
+    out.push(("same tree without a binary name".to_string(), r4));
     out
 }
 
@@ -222,7 +225,8 @@ fn check_b(spec: &CmdSpec, cmd: &clap::Command, prefix: &[&str], path: &[&str], 
     let d = describe(lvl);
     let mut argv: Vec<Vec<u8>> = prefix.iter().map(|s| s.as_bytes().to_vec()).collect();
     argv.push(partial.as_bytes().to_vec());
-    let index = argv.len(); // prog at 0
+    // prog at 0, unless the definition has no binary name (REPL-style use)
+    let index = if spec.has(Setting::NoBinaryName) { argv.len() - 1 } else { argv.len() };
     let cands = match run_complete(cmd, spec, &argv, index) {
         Ok(Ok(c)) => c,
         Ok(Err(e)) => {
